@@ -8,15 +8,15 @@ import (
 
 // KeyFacts is what the key-lifecycle monitors (C04, C05) need to know about an encrypt.
 type KeyFacts struct {
-	IK, SK         *kit.Row // the IK row named by the record and the SK row it names (nil if absent)
-	T              time.Time
-	Trunc          int64 // creation stamp a key created now by this process would get
-	LaterIKStamp   bool  // Trunc > IK.Created: a replacement IK with a later stamp can be created
-	LaterSKStamp   bool  // Trunc > SK.Created
-	KeyCaching     bool  // the process caches IKs or SKs
-	IKExpired      bool
-	SKExpired      bool
-	SKExpiredAt    time.Time
+	IK, SK       *kit.Row // the IK row named by the record and the SK row it names (nil if absent)
+	T            time.Time
+	Trunc        int64 // creation stamp a key created now by this process would get
+	LaterIKStamp bool  // Trunc > IK.Created: a replacement IK with a later stamp can be created
+	LaterSKStamp bool  // Trunc > SK.Created
+	KeyCaching   bool  // the process caches IKs or SKs
+	IKExpired    bool
+	SKExpired    bool
+	SKExpiredAt  time.Time
 }
 
 // Facts computes KeyFacts for a successful encrypt event.
